@@ -577,6 +577,13 @@ impl ZeroCopyBuffer {
         // Clear buffer but keep capacity
         buffer.clear();
 
+        // A buffer that lost its capacity (shrunk, or not one of ours) is not worth pooling:
+        // get_buffer hands out buffers of at least buffer_size
+        if buffer.capacity() < self.buffer_size {
+            debug!("Buffer below pool size, dropping");
+            return;
+        }
+
         let mut pool = self.buffer_pool.write().await;
         if pool.len() < self.max_pooled_buffers {
             pool.push(buffer);
